@@ -276,7 +276,7 @@ func c02Run(c *Ctx, t *c02Tables, mem *fastMem, e *aluEnc, base z80.States, d ui
 		pre.IY = c02Mem - sd
 	}
 	var n int64
-	cpu := z80.CPU{Memory: mem}
+	cpu := &z80.CPU{Memory: mem}
 	memOp := e.Loc == lMemHL || e.Loc == lMemIX || e.Loc == lMemIY
 	wantWrites := 0
 	if memOp && e.Kind != kBIT && e.Kind != kALU {
@@ -320,6 +320,19 @@ func c02Run(c *Ctx, t *c02Tables, mem *fastMem, e *aluEnc, base z80.States, d ui
 				cpu.States = p
 				cpu.HALT = false
 				mem.writes = 0
+				if n&0xfff == 0x2aa {
+					// continue on a by-value copy of the CPU struct; the abandoned struct is
+					// scribbled over (a user may fork or return a CPU by value)
+					old := cpu
+					cpu = new(z80.CPU)
+					*cpu = *old
+					*old = z80.CPU{}
+					old.States.AF.SetU16(0x5a5a)
+					old.States.BC.SetU16(0x6b6b)
+					old.States.DE.SetU16(0x7c7c)
+					old.States.HL.SetU16(0x8d8d)
+					old.States.IX, old.States.IY = 0xdead, 0xbeef
+				}
 				cpu.Step()
 				n++
 				na, nv, nf, mask := c02Spec(t, e, uint8(a), v, f)
@@ -370,6 +383,54 @@ func c02Run(c *Ctx, t *c02Tables, mem *fastMem, e *aluEnc, base z80.States, d ui
 							"mem_operand_after": h8(mem.d[c02Mem]), "writes": mem.writes})
 					} else if reported == 4 {
 						c.R.Violation(fmt.Sprintf("C02/%s/more", e.Name), nil)
+					}
+				}
+			}
+		}
+	}
+	return n
+}
+
+// c02RunDirect: an indexed encoding on a 64 KiB z80.DumbMemory / z80.MapMemory handed to
+// the CPU directly, with the operand at an address that makes IX+d / IY+d wrap past
+// 0000/FFFF for many displacements.
+func c02RunDirect(c *Ctx, t *c02Tables, e *aluEnc, base z80.States, mem z80.Memory, opAddr uint16, kindName string) int64 {
+	var n int64
+	bs := append([]uint8{}, e.Bytes...)
+	reported := 0
+	for dd := 0; dd < 256; dd++ {
+		d := uint8(dd)
+		bs[e.DPos] = d
+		for k, b := range bs {
+			mem.Set(c02PC+uint16(k), b)
+		}
+		pre := base
+		pre.PC = c02PC
+		sd := uint16(int16(int8(d)))
+		if e.Loc == lMemIX {
+			pre.IX = opAddr - sd
+		} else {
+			pre.IY = opAddr - sd
+		}
+		for _, a := range []uint8{0x00, 0x0f, 0x80, 0xff} {
+			for _, v := range []uint8{0x00, 0x01, 0x7f, 0x80, 0xaa, 0xff} {
+				for _, f := range []uint8{0x00, 0xff, 0x01} {
+					p := pre
+					p.AF.Hi, p.AF.Lo = a, f
+					mem.Set(opAddr, v)
+					cpu := z80.CPU{States: p, Memory: mem}
+					cpu.Step()
+					n++
+					na, nv, nf, mask := c02Spec(t, e, a, v, f)
+					got := cpu.States
+					if got.AF.Hi != na || (got.AF.Lo^nf)&mask != 0 || mem.Get(opAddr) != nv || got.PC != c02PC+uint16(len(bs)) {
+						reported++
+						if reported <= 2 {
+							c.R.Violation(fmt.Sprintf("C02/%s/on %s directly", e.Name, kindName), map[string]interface{}{
+								"encoding": e.Name, "bytes": HexBytes(bs), "memory": kindName, "operand_address": h16(opAddr), "d": h8(d),
+								"A": h8(a), "operand": h8(v), "F": h8(f), "want_A": h8(na), "want_F": h8(nf), "want_operand": h8(nv),
+								"pre": DumpState(&p, false), "post": DumpState(&cpu.States, cpu.HALT), "operand_after": h8(mem.Get(opAddr))})
+						}
 					}
 				}
 			}
@@ -430,6 +491,17 @@ func runC02(c *Ctx) {
 				}
 			}
 		}
+		if e.DPos >= 0 && ch == 1 {
+			// the same indexed encoding on the bundled memory types directly, effective
+			// address wrapping past 0000 / FFFF
+			dm := make(z80.DumbMemory, 65536)
+			nd += c02RunDirect(c, t, e, bases[ei], dm, 0x0005, "DumbMemory")
+			nd += c02RunDirect(c, t, e, bases[ei], dm, 0xfffa, "DumbMemory")
+			if ei%4 == 0 {
+				mm := z80.MapMemory{}
+				nd += c02RunDirect(c, t, e, bases[ei], mm, 0x0003, "MapMemory")
+			}
+		}
 		mu.Lock()
 		evals += n + nd
 		dsweep += nd
@@ -457,9 +529,9 @@ func runC02(c *Ctx) {
 	c.R.Set("steps_displacement_sweep", dsweep)
 	c.R.Set("exhaustive", thorough)
 	if thorough {
-		c.R.Set("rule", "the complete cube A(256) x operand(256) x incoming F(256) through the real CPU.Step for every one of the 559 encodings (degenerate A x F where the operand register is A), plus all 256 displacements on a reduced value set for the indexed forms; oracle = pure functions from the reference model's ALU layer (definitional flags), masks for SCF/CCF and BIT on memory; whole States compared (so nothing else may change), memory operand and write count compared. Every (encoding, A, operand, F, d) tuple is enumerated once, so distinct = evaluations by construction; all are non-trivial (each executes the operation under test)")
+		c.R.Set("rule", "the complete cube A(256) x operand(256) x incoming F(256) through the real CPU.Step for every one of the 559 encodings (degenerate A x F where the operand register is A), plus all 256 displacements on a reduced value set for the indexed forms (also on z80.DumbMemory / z80.MapMemory handed to the CPU directly with the operand at 0005 / FFFA so that IX+d wraps); every 4096th Step continues on a by-value copy of the CPU struct; oracle = pure functions from the reference model's ALU layer (definitional flags), masks for SCF/CCF and BIT on memory; whole States compared (so nothing else may change), memory operand and write count compared. Every (encoding, A, operand, F, d) tuple is enumerated once, so distinct = evaluations by construction; all are non-trivial (each executes the operation under test)")
 	} else {
-		c.R.Set("rule", "complete cube A x operand x F for one representative encoding of each operation; for every other encoding all A x operand x 8 F values {00,FF,01,FE,10,02,D7,28}; all 256 displacements on a reduced value set for indexed forms; oracle and comparison as in the thorough tier. Every tuple is enumerated once, so distinct = evaluations by construction")
+		c.R.Set("rule", "complete cube A x operand x F for one representative encoding of each operation; for every other encoding all A x operand x 8 F values {00,FF,01,FE,10,02,D7,28}; all 256 displacements on a reduced value set for indexed forms (also on the bundled memory types directly, effective address wrapping); every 4096th Step continues on a by-value copy of the CPU struct; oracle and comparison as in the thorough tier. Every tuple is enumerated once, so distinct = evaluations by construction")
 	}
 	c.R.Assume("oracle functions ref.Alu8/Inc8/Dec8/Rot/Bit/Daa/... are validated against the hardware CRCs by the self-test of the model that shares them")
 }
